@@ -4,6 +4,6 @@ CONSTANTS
   Svc = {"s1", "s2"}
   Items = {"x1", "x2"}
   MaxOps = 1000000
-INVARIANTS MonUniqueNames MonThreeViews MonRemovedStopsAccepting MonEditApplies MonOwnerScopedCleanup MonKeepsRunning MonSvcAuth
+INVARIANTS MonUniqueNames MonThreeViews MonRemovedStopsAccepting MonEditApplies MonOwnerScopedCleanup MonKeepsRunning MonSvcAuth MonListenersSurvive
 POSTCONDITION TraceAccepted
 CHECK_DEADLOCK FALSE
